@@ -64,6 +64,12 @@ func VerifyFunc(P *Program, fn *ssa.Function, spec *FuncSpec, prop string) (ex *
 		st.assume(ex.typeInv(t, v, alloc0))
 		ex.ghostVals[g.Name] = &SV{V: v, T: t}
 	}
+	if fn.Name() == "init" && fn.Synthetic != "" && fn.Pkg != nil {
+		// a package initialiser runs once: its guard is false on entry
+		if g, ok := fn.Pkg.Members["init$guard"].(*ssa.Global); ok {
+			st.heap[ex.globalKey(g)+" "] = TFalse
+		}
+	}
 	ex.addSpecAxioms(st, fr)
 	ex.entry = st.clone()
 	// requires
